@@ -189,7 +189,20 @@ def gen_cases(tier, seed):
         if i % 6 == 5:
             # the k-th constructor call of the first load fails once
             case['flaky'] = i // 6 % 4
+        # a file handle used on its own, outside any ResourceMap (only
+        # when the description asks for no resource)
+        case['standalone'] = i % 7 == 3
         yield case
+    # the same description loaded by a child interpreter whose locale
+    # encoding is not UTF-8 (world files are JSON, i.e. UTF-8 text)
+    for i in range(4 if tier == 'quick' else 16 * 6):
+        rng = random.Random(f'C15/locale/{seed}/{tier}/{i}')
+        yield {'mode': 'locale',
+               'strings': [rng.choice(['caf\u00e9', 'na\u00efve \u2603',
+                                       '\u65e5\u672c\u8a9e', '\u00fcber',
+                                       'plain'])
+                           for _ in range(rng.randint(1, 3))],
+               'as_kw': rng.random() < 0.5}
 
 
 def resolve(name):
@@ -216,7 +229,82 @@ def same_json(a, b):
     return a == b
 
 
+LOCALE_CHILD = r'''
+import json, sys
+sys.path.insert(0, sys.argv[1]); sys.path.insert(0, sys.argv[2])
+import desper, vf_fixtures
+vf_fixtures.build()
+m = desper.ResourceMap()
+m['w'] = desper.WorldFromFileHandle(sys.argv[3])
+try:
+    w = m['w']
+except Exception as ex:
+    print(json.dumps({'error': type(ex).__name__ + ': ' + str(ex)[:200]}))
+    sys.exit(0)
+out = []
+for e, c in w.get(vf_fixtures.RC1):
+    out.append([list(c.args), c.kwargs])
+import locale
+print(json.dumps({'args': out,
+                  'encoding': locale.getpreferredencoding(False)}))
+'''
+
+
+def run_locale(case):
+    import subprocess
+    import sys
+    from vf import DESPER_ROOT
+    res = Res()
+    tmp = tempfile.mkdtemp(prefix='vf-c15-')
+    try:
+        strings = case['strings']
+        comp = {'type': 'vf_fixtures.RC1'}
+        if case['as_kw']:
+            comp['kwargs'] = {f'k{i}': s for i, s in enumerate(strings)}
+        else:
+            comp['args'] = list(strings)
+        desc = {'entities': [{'components': [comp]}]}
+        path = os.path.join(tmp, 'world.json')
+        with open(path, 'w', encoding='utf-8') as fout:
+            json.dump(desc, fout, ensure_ascii=False)
+        verif = os.path.dirname(os.path.dirname(os.path.dirname(
+            os.path.abspath(__file__))))
+        env = {k: v for k, v in os.environ.items()
+               if not k.startswith('LC_') and k not in ('LANG', 'PYTHONUTF8')}
+        env.update(LC_ALL='C', PYTHONUTF8='0', PYTHONCOERCECLOCALE='0',
+                   PYTHONDONTWRITEBYTECODE='1')
+        proc = subprocess.run([sys.executable, '-c', LOCALE_CHILD,
+                               DESPER_ROOT, verif, path],
+                              capture_output=True, text=True, timeout=120,
+                              env=env)
+        res.stats['loads_under_a_non_utf8_locale'] += 1
+        try:
+            got = json.loads(proc.stdout.strip().splitlines()[-1])
+        except Exception:
+            res.div(0, 'locale-child-failed', 'the child interpreter did '
+                    'not report', 'a report', (proc.stdout
+                                               + proc.stderr)[-400:])
+            return res
+        res.tags['child_locale_encoding'].add(got.get('encoding', '?'))
+        want = [[[] if case['as_kw'] else list(strings),
+                 {f'k{i}': s for i, s in enumerate(strings)}
+                 if case['as_kw'] else {}]]
+        if got.get('args') != want:
+            res.div(0, 'non-ascii-argument-altered', 'a world file with '
+                    'non-ASCII string arguments, loaded by an interpreter '
+                    'whose locale encoding is not UTF-8: the arguments do '
+                    'not pass through unchanged', want,
+                    got.get('args', got.get('error')))
+        res.nontrivial = any(ord(ch) > 127 for s in strings for ch in s)
+        res.sample = {'strings': strings, 'child': got}
+    finally:
+        shutil.rmtree(tmp, ignore_errors=True)
+    return res
+
+
 def run_case(case):
+    if case.get('mode') == 'locale':
+        return run_locale(case)
     desper = import_desper()
     import vf_fixtures
     vf_fixtures.build()
@@ -278,7 +366,12 @@ def _run(case, desper, fx, res, tmp):
             with open(path, 'w') as fout:
                 json.dump(desc, fout)
             handle = desper.WorldFromFileHandle(path)
-            root[case['where']] = handle
+            text = json.dumps(desc)
+            if case.get('standalone') and '$res{' not in text \
+                    and '$handle{' not in text:
+                res.tags['file_handle_outside_a_map'].add(True)
+            else:
+                root[case['where']] = handle
         else:
             concrete = json.loads(json.dumps(desc))
             for pd in concrete.get('processors', []):
@@ -573,6 +666,10 @@ def _run(case, desper, fx, res, tmp):
 
 
 def shrink(case):
+    if case.get('mode') == 'locale':
+        if len(case['strings']) > 1:
+            yield dict(case, strings=case['strings'][:-1])
+        return
     desc = case['desc']
     ents = desc.get('entities', [])
     for i in range(len(ents)):
